@@ -461,9 +461,16 @@ func (l *leafer) sprintfPieces(env *lenv, c *ast.CallExpr) ([]piece, bool) {
 
 func (l *leafer) flatten(env *lenv, e ast.Expr, depth int, out *[]piece) {
 	e = ast.Unparen(e)
-	if tv, ok := env.fn.info.Types[e]; ok && tv.Value != nil && tv.Value.Kind() == constant.String {
-		*out = append(*out, piece{isConst: true, s: constant.StringVal(tv.Value)})
-		return
+	if tv, ok := env.fn.info.Types[e]; ok && tv.Value != nil {
+		switch tv.Value.Kind() {
+		case constant.String:
+			*out = append(*out, piece{isConst: true, s: constant.StringVal(tv.Value)})
+			return
+		case constant.Int:
+			// only reached as an operand of Sprintf / Itoa: the decimal text
+			*out = append(*out, piece{isConst: true, s: tv.Value.ExactString()})
+			return
+		}
 	}
 	if depth < 6 {
 		switch x := e.(type) {
@@ -479,6 +486,12 @@ func (l *leafer) flatten(env *lenv, e ast.Expr, depth int, out *[]piece) {
 				return
 			}
 		case *ast.CallExpr:
+			if f := calleeFunc(env.fn.info, x); f != nil && f.FullName() == "strconv.Itoa" && len(x.Args) == 1 {
+				if tv, ok := env.fn.info.Types[x.Args[0]]; ok && tv.Value != nil && tv.Value.Kind() == constant.Int {
+					*out = append(*out, piece{isConst: true, s: tv.Value.ExactString()})
+					return
+				}
+			}
 			if ps, ok := l.sprintfPieces(env, x); ok {
 				for _, p := range ps {
 					if p.isConst {
@@ -645,19 +658,15 @@ func (l *leafer) call(env *lenv, c *ast.CallExpr, want int) {
 		l.add("reply " + fobj.FullName())
 		return
 	}
-	if ps, ok := l.sprintfPieces(env, c); ok {
-		var cur strings.Builder
-		for _, p := range ps {
-			if p.isConst {
-				cur.WriteString(p.s)
-				continue
-			}
-			l.constLeaf(cur.String())
-			cur.Reset()
-			l.expr(p.env, p.e, -1)
-		}
-		l.constLeaf(cur.String())
+	if _, ok := l.sprintfPieces(env, c); ok {
+		l.concat(env, c)
 		return
+	}
+	if fobj.FullName() == "strconv.Itoa" && len(c.Args) == 1 {
+		if tv, ok := info.Types[c.Args[0]]; ok && tv.Value != nil {
+			l.concat(env, c)
+			return
+		}
 	}
 	if !transparent[fobj.FullName()] {
 		l.add("call " + fobj.FullName())
